@@ -71,6 +71,11 @@ Definition g_finalize (d : gdesc) (s : gst) : gst :=
      g_invalid := inv;
      g_loaded := g_loaded s |}.
 
+(* start of the repaired finalize(): derived containers cleared (mesh flags are below this level) *)
+Definition g_reset_derived (s : gst) : gst :=
+  {| g_verts := g_verts s; g_nmeshes := g_nmeshes s; g_ndomains := g_ndomains s; g_nested := g_nested s; g_nparams := g_nparams s;
+     g_cbt := g_cbt s; g_pairs := 0; g_parts := 0; g_invalid := []; g_loaded := g_loaded s |}.
+
 (* Geometry::load(geom[,cond]) with descriptor number i *)
 Definition g_load (fixed : bool) (i : nat) (d : gdesc) (s : gst) : gst :=
   let s1 := g_clear fixed s in
@@ -88,7 +93,8 @@ Definition g_observe (st : Z) (s : gst) : list Z :=
 Inductive gop :=
 | GLoad (i : nat)        (* load / import described by descriptor i (an import is a descriptor with d_finalized = false) *)
 | GHeadMat               (* HeadMat(geo) : fingerprint of the result *)
-| GOther.                (* another assembly on the same geometry (DipSourceMat): result not observed *)
+| GOther                 (* another assembly on the same geometry (DipSourceMat): result not observed *)
+| GFinalize.             (* finalize() called again on an object whose last load reached finalize *)
 
 Definition dummy_desc : gdesc :=
   {| d_status := 3; d_verts := []; d_nmeshes := 0; d_ndomains := 0; d_finalized := false; d_marks := false; d_inv_add := [];
@@ -111,6 +117,18 @@ Definition g_step (fixed : bool) (W : list gdesc) (o : gop) (s : gst) : gst * li
   | GLoad i => let d := nth i W dummy_desc in let s' := g_load fixed i d s in (s', g_observe (d_status d) s')
   | GHeadMat => (s, g_observe (g_headmat W s) s)
   | GOther => (s, g_observe (-2) s)
+  | GFinalize =>
+      match g_loaded s with
+      | Some i => let d := nth i W dummy_desc in
+                  if d_finalized d then
+                    (* repaired: finalize() first clears the derived containers and the mesh flags.
+                       pinned: it appends to them; in addition mark_current_barriers reads the flags it set on the first
+                       call (a current barrier becomes isolated), which is below this bookkeeping level: the pinned
+                       clause is exact only for geometries without current barriers *)
+                    let s' := g_finalize d (if fixed then g_reset_derived s else s) in (s', g_observe 0 s')
+                  else (s, g_observe (-1) s)
+      | None => (s, g_observe (-1) s)
+      end
   end.
 
 Fixpoint g_run (fixed : bool) (W : list gdesc) (h : list gop) (s : gst) : gst :=
